@@ -143,6 +143,30 @@ def polyval_spec(enc, coeffs, t, k):
 def run_scenarios(fn):
     """decorator: task function returns list of Scenario -> list of finished dicts"""
     def wrapped(task):
-        return [sc.finish() for sc in fn(task)]
+        try:
+            return [sc.finish() for sc in fn(task)]
+        except D.HarnessCrash as e:
+            if e.rc == 3:       # script error of the VM itself: a framework problem, not a finding
+                raise
+            # the real code crashed (assertion / signal) while executing a valid scenario: confirm with the native build
+            import re, os, json, hashlib
+            text = re.sub(r'^decisions .*\n', '', e.text)
+            try:
+                D.run(e.tu, text, native=True)
+                native_crash = False
+            except D.HarnessCrash as e2:
+                native_crash = True
+                err2 = e2.stderr
+            if not native_crash:
+                raise
+            os.makedirs(O.REPLAY_DIR, exist_ok=True)
+            body = {'kind': 'crash', 'property': task.get('prop', ''), 'obligation': task['name'] + ' :: library code aborts on a valid scenario',
+                    'tu': O.tu_spec(e.tu), 'script': text, 'stderr': err2[-600:]}
+            h = hashlib.sha256(json.dumps(body, sort_keys=True).encode()).hexdigest()[:12]
+            path = os.path.join(O.REPLAY_DIR, 'crash-%s.json' % h)
+            json.dump(body, open(path, 'w'), indent=1)
+            return [{'scenario': task['name'], 'queries': 0, 'solver_s': 0, 'nodes': 0, 'path_len': 0,
+                     'results': [{'name': body['obligation'], 'kind': 'crash', 'status': 'sat', 't': 0, 'confirmed': True, 'replay': path,
+                                  'note': 'recording and native builds both abort: ' + err2[-300:].replace('\n', ' ')}]}]
     wrapped.__name__ = fn.__name__
     return wrapped
